@@ -54,6 +54,9 @@ pub struct Log {
     pub acked_features: Vec<u64>,
     pub event_idx: Vec<bool>,
     pub update_memory: u64,
+    /// (guest address, size) of every region of the table as seen *inside* the latest
+    /// update_memory callback
+    pub update_memory_table: Vec<(u64, u64)>,
     pub reset_device: u64,
     pub backend_req: Vec<Backend>,
     pub set_config: Vec<(u32, Vec<u8>)>,
@@ -82,6 +85,8 @@ pub struct StubCfg {
     pub touch_memory_on_event: bool,
     /// handle_event advances the ring's next-available index by one (as processing a request would)
     pub advance_avail_on_event: bool,
+    /// handle_event ends with signal_used_queue() on its ring (an interrupt per processed request)
+    pub signal_on_event: bool,
 }
 
 impl Default for StubCfg {
@@ -104,6 +109,7 @@ impl Default for StubCfg {
             fail_update_memory: false,
             touch_memory_on_event: false,
             advance_avail_on_event: false,
+            signal_on_event: false,
         }
     }
 }
@@ -212,8 +218,16 @@ where
         if self.cfg.fail_update_memory {
             return Err(std::io::Error::other("scripted update_memory failure"));
         }
+        let table: Vec<(u64, u64)> = {
+            use vm_memory::{GuestAddressSpace, GuestMemory, GuestMemoryRegion};
+            let mut v: Vec<(u64, u64)> = mem.memory().iter().map(|r| (r.start_addr().0, r.len())).collect();
+            v.sort();
+            v
+        };
         self.mem = Some(mem);
-        self.log.lock().unwrap().update_memory += 1;
+        let mut g = self.log.lock().unwrap();
+        g.update_memory += 1;
+        g.update_memory_table = table;
         Ok(())
     }
     fn set_backend_req_fd(&mut self, backend: Backend) {
@@ -271,6 +285,12 @@ where
             if let Some(v) = vrings.get(device_event as usize) {
                 sched::point("backend.processing");
                 v.set_queue_next_avail(v.queue_next_avail().wrapping_add(1));
+            }
+        }
+        if self.cfg.signal_on_event {
+            if let Some(v) = vrings.get(device_event as usize) {
+                sched::point("backend.before_signal");
+                let _ = v.signal_used_queue();
             }
         }
         if self.cfg.add_used_on_event {
